@@ -1,5 +1,6 @@
 """C04  DOF numbering: gap-free, shared exactly along shared entities; local matrices."""
 import numpy as np
+from skfem.element import ElementVector
 
 from .. import meshes, elements, fields
 from ..core import exc_kind
@@ -69,8 +70,8 @@ def oracle(m, e, dofs):
         table = np.asarray(table)
         if table.size == 0:
             continue
-        if kind == "facet" and e.dim < 2:
-            continue
+        if kind == "facet" and int(e.refdom.dim()) < 2:
+            continue     # (1-D: the facets are the vertices)
         for itr in range(np.asarray(conn).shape[0]):
             for a in range(table.shape[0]):
                 want = table[a, np.asarray(conn)[itr]]
@@ -114,6 +115,60 @@ def dofloc_incidence(m, b):
     return None
 
 
+_DUAL = None
+
+
+def nodal_duality(e, ename):
+    """for (wrappers of) elements whose reference functions are dual to point evaluation at their DOF
+    locations (frozen list gens/shape_expect.json: 'dual'): function j is 1 at location j (in its own
+    component for vector wrappers) and 0 at every other location.  Returns a description of the first
+    failure or None; None also when the element makes no such claim."""
+    global _DUAL
+    import json
+    import re
+    from pathlib import Path
+    if _DUAL is None:
+        exp = json.loads((Path(__file__).resolve().parents[1] / "gens" / "shape_expect.json").read_text())
+        _DUAL = {k for k, v in exp.items() if isinstance(v, dict) and v.get("dual")}
+    mt = re.fullmatch(r"(?:(ElementDG|ElementVector)\()?(Element\w+)(?:,(\d))?\)?", ename)
+    if not mt or mt.group(2) not in _DUAL:
+        return None
+    wrapper, ncomp = mt.group(1), (int(mt.group(3)) if mt.group(3) else None)
+    locs = np.asarray(e.doflocs, dtype=float)
+    if np.isnan(locs).any():
+        return None
+    nb = locs.shape[0]
+    X = locs.T.copy()
+    vec = wrapper == "ElementVector"
+    dim = int(e.dim) if vec else 1
+    # evaluate through gbasis on the one-cell mesh that IS the reference cell (wrappers have no lbasis)
+    kind = elements.KIND_OF_REFDOM[e.refdom.__name__]
+    try:
+        mref = meshes.CLS[kind].init_refdom()
+    except Exception:
+        return None
+    mp = mref.mapping()
+    if not np.allclose(mp.F(X)[:, 0, :], X, atol=1e-14):
+        return None
+    for j in range(nb):
+        val = np.asarray(e.gbasis(mp, X, j)[0].value)
+        val = val[:, 0, :] if vec else val[0, :]
+        if vec:
+            comp = j % dim
+            want = np.zeros((dim, nb))
+            # locations are repeated per component: function j is 1 at all `dim` copies of its node
+            want[comp] = (np.arange(nb) // dim == j // dim).astype(float)
+        else:
+            want = (np.arange(nb) == j).astype(float)
+        if val.shape != want.shape or not np.allclose(val, want, atol=1e-9):
+            return {"function": j, "values_at_locations": np.round(val, 6).tolist(), "expected": want.tolist()}
+    ctx_counter["n"] = ctx_counter.get("n", 0) + 1
+    return None
+
+
+ctx_counter = {}
+
+
 def run(ctx):
     from skfem import Basis, BilinearForm
     from skfem.assembly import Dofs
@@ -141,6 +196,11 @@ def run(ctx):
             ctx.violation("element construction raised " + exc_kind(ex), {"kind": kind, "err": repr(ex)},
                           {"what": "raise-element"})
             continue
+        if elements.family(e) == "h1" and not elements.is_skeleton(ename) and ctx.rng.random() < 0.15:
+            # vector wrapper with an explicit number of components (may differ from the mesh dimension)
+            ncomp = ctx.rng.choice([1, 2, 3])
+            e, ename = ElementVector(e, ncomp), f"ElementVector({ename},{ncomp})"
+            ctx.count("vector-wrapper-explicit-dim")
         ctx.count("mesh:" + kind)
         ctx.count("family:" + elements.family(e))
         descr = {"cls": kind, "t": m.t.tolist(), "element": ename}
@@ -180,8 +240,11 @@ def run(ctx):
                                   {"what": "sparsity", "element": ename})
                 ctx.count("sparsity-checks")
                 # DOF location table
+                # (several DOFs of one edge/facet at DIFFERENT locations are seen in different orders by the
+                # neighbouring cells; the components of a vector wrapper share their location)
+                cnt_e = elements.counts(e.elem) if isinstance(e, ElementVector) else elements.counts(e)
                 if getattr(b, "doflocs", None) is not None and hasattr(e, "doflocs") \
-                        and max(elements.counts(e)[1:3]) <= 1:
+                        and max(cnt_e[1:3]) <= 1:
                     mp = m.mapping()
                     for j in range(ed.shape[0]):
                         X = np.asarray(e.doflocs[j], dtype=float)[:, None]
@@ -194,6 +257,12 @@ def run(ctx):
                                           {"what": "doflocs", "element": ename})
                             break
                     ctx.count("doflocs-checks")
+                    bad_dual = nodal_duality(e, ename)
+                    if bad_dual:
+                        ctx.violation("local DOF location table is not in the order of the local basis functions "
+                                      "(function j does not take the value 1 at location j and 0 at the others)",
+                                      {"element": ename, "detail": bad_dual},
+                                      {"what": "doflocs-duality", "element": ename.split("(")[0]})
                     # independent geometric incidence: the location of a DOF lies in the closure of ITS entity
                     # (vertex / edge / facet / cell, as the per-entity tables say)
                     bad_inc = dofloc_incidence(m, b)
